@@ -175,6 +175,19 @@ theorem upres_pRetract (T : List Tup) (id : Id) (x : Option Nat) : UPres T (pRet
       | exact h1
       | exact markChanged_uinv h1 (load_new' hl) rfl rfl
 
+theorem upres_pPurge (T : List Tup) (id : Id) (b : Bool) : UPres T (pPurge id b) := by
+  intro s tx e h
+  unfold pPurge
+  split
+  · exact h.same rfl
+  · rename_i tx1 y hl
+    have h1 := load_uinv h hl
+    repeat' split
+    all_goals first
+      | exact h1.same rfl
+      | exact h1
+      | exact h1.setPlain id _ (fun _ => .inl rfl) rfl
+
 /-- minting adds a row whose tuple key is the placeholder -/
 theorem UInv.mint {T : List Tup} {s : Store} {tx : Tx} {e : Option Err} (h : UInv T { s := s, tx := tx, err := e }) (k : Kind) :
     UInv T { s := (mintShell s tx k).1, tx := (mintShell s tx k).2.1, err := none } := by
@@ -237,6 +250,7 @@ macro "upres_chain" h:ident : tactic => `(tactic|
     | exact upres_pBind _ _ _ _ _ _ $h
     | exact upres_pSetState _ _ _ _ _ _ _ $h
     | exact upres_pRetract _ _ _ _ _ _ $h
+    | exact upres_pPurge _ _ _ _ _ _ $h
     | exact upres_pAssign _ _ _ _ _ _ $h
     | exact upres_pFail _ _ _ _ _ $h
     | exact upres_pStageNewPlain _ _ _ rfl _ _ _ $h
@@ -315,5 +329,6 @@ theorem applyClause_uinv (c : Clause) (s : Store) (tx : Tx) (e : Option Err) (hw
   | update t val expect bad => simp only [applyClause]; (repeat' split) <;> upres_chain h
   | setState t to expect => simp only [applyClause]; (repeat' split) <;> upres_chain h
   | retract t expect => simp only [applyClause]; (repeat' split) <;> upres_chain h
+  | purge t bad => simp only [applyClause]; (repeat' split) <;> upres_chain h
 
 end AndaVerif.Tx
